@@ -8,7 +8,7 @@
     ([all_fixed]: the tree the check runs against; [pinned]: the tree as found).
     Spec (Val/CoerceSpec.v): [conforms], [ref_coerce] (RefCoerce), [ref_request]. *)
 From Coq Require Import List NArith ZArith Bool.
-From ApiFu Require Import Base.Sexp Val.Values Val.CoerceModel Val.CoerceSpec Val.CoerceProofs Val.FloatExact Val.CoerceReasons Val.CoerceRefine Val.CoerceRoutes Val.CoerceSameValue Val.CoerceTotal Val.CoerceComplete Val.BridgeC04 Val.BridgeC04Proofs Val.BridgeC04Doc Val.BridgeC04Full.
+From ApiFu Require Import Base.Sexp Val.Values Val.CoerceModel Val.CoerceSpec Val.CoerceProofs Val.FloatExact Val.CoerceReasons Val.CoerceRefine Val.CoerceRoutes Val.CoerceSameValue Val.CoerceTotal Val.CoerceComplete Val.BridgeC04 Val.BridgeC04Proofs Val.BridgeC04Doc Val.BridgeC04Full Val.FloatRange Val.FloatText.
 From ApiFu Require Vld.Ast Vld.ValidatorModel Vld.Inspect Vld.TypeInfoModel Vld.ProofsValues Vld.ProofsTypeInfoValues.
 Import ListNotations.
 
@@ -412,7 +412,7 @@ Theorem C05_C04_usage_bridge : forall E dt sf argdefs defs,
     (map (TypeInfoModel.ti_vardef true (tr_request_schema E sf argdefs) []) (tr_vardefs 0 defs))
     false (Some (tr_sty t)) ld (tr_lit l) = [] ->
   usage_ok all_fixed E defs l (Some t) ld = true.
-Proof. exact usage_bridge. Qed.
+Proof. exact usage_bridge_kind. Qed.
 
 Theorem C05_C04_coercion_bridge_closed : forall E dt (S : Ast.schema),
   (forall n td, aget n E = Some td -> Ast.raw_body S n = Some (tr_tdef td)) ->
@@ -422,7 +422,7 @@ Theorem C05_C04_coercion_bridge_closed : forall E dt (S : Ast.schema),
   | ValidatorModel.VR [] => true
   | _ => false
   end = validate_coercion E dt l t a.
-Proof. exact bridge_closed. Qed.
+Proof. exact bridge_closed_kind. Qed.
 
 (** ** DateTime and LongInt through C04's refined scalars ([Ast.SRefined], [tr_scalar_r]):
     LongInt is SRefined (Some [KInt]) (PIntRange (-(2^53-1)) (2^53-1)), DateTime is
@@ -439,6 +439,40 @@ Proof. exact longint_leaf. Qed.
 Theorem C05_C04_datetime_leaf : forall dt l, (forall v, l <> LVar v) -> l <> LNull ->
   ValidatorModel.scalar_accepts (tr_scalar_r dt KDateTime) (tr_lit l) = match scalar_literal dt KDateTime l with Some _ => true | None => false end.
 Proof. exact datetime_leaf. Qed.
+
+(** ** round 7: no hypothesis about scalar leaves is left, and [bridgeable] is gone.
+    [C05_C04_float_leaves_agree]: C04's ParseFloat range test on the decimal text C05's bridge
+    writes accepts exactly when C05's rounding succeeds.  Behind it:
+    [C05_rounding_overflows_iff]: [f64_of_Q] of a positive n / d is [None] exactly when
+    n / d >= 2^1024 - 2^970 (by cases on the final exponent: >= 972 always overflows, = 971 is the
+    boundary where the tie rounds to even = up, <= 970 never), and C04's digit-count shortcuts at
+    10^300 and 10^320 ([range_ok_spec]) over the number of digits [dec_of_Z] writes.
+    The [_r] statements are over the refined translation ([tr_env_r], [tr_request_schema_r]:
+    DateTime and LongInt through C04's SRefined): every environment. *)
+Theorem C05_rounding_overflows_iff : forall p d : positive,
+  f64_of_Q (Zpos p) d = None <-> (float_limit * Zpos d <= Zpos p)%Z.
+Proof. exact f64_of_Q_none_iff. Qed.
+
+Theorem C05_C04_float_leaves_agree : forall dt, float_leaves_agree dt.
+Proof. exact float_leaves_agree_holds. Qed.
+
+Theorem C05_C04_coercion_bridge_r : forall E dt, env_closed E = true ->
+  forall l t a, sty_closed E t = true -> c04_accepts_r dt E l t a = validate_coercion E dt l t a.
+Proof. exact bridge_closed_final. Qed.
+
+Theorem C05_C04_coercion_bridge : forall E dt, bridgeable E = true ->
+  forall l t a, c04_accepts E l t a = validate_coercion E dt l t a.
+Proof. exact bridge_bridgeable_final. Qed.
+
+Theorem C05_C04_accepts_implies_static_ok_r : forall E dt sf dname argdefs defs args,
+  ahas n_Query E = false -> ahas n_Res E = false ->
+  env_closed E = true ->
+  (forall ad, In ad argdefs -> sty_closed E (in_type (snd ad)) = true) ->
+  (forall def, In def defs -> leaf_name (vd_type def) <> n_Res) ->
+  In dname dir_names ->
+  c04_document_accepts_r dt E sf (if sf then None else Some dname) argdefs defs args = true ->
+  static_ok all_fixed E dt sf argdefs defs args = true.
+Proof. exact accepts_implies_static_ok_final. Qed.
 
 (** the repaired defects: the same statements are false of the code as found *)
 Theorem C05_args_conform_refuted_before_fix :
@@ -499,6 +533,11 @@ Print Assumptions C05_static_ok_split.
 Print Assumptions C05_C04_types_compatible.
 Print Assumptions C05_C04_variable_usage.
 Print Assumptions C05_C04_accepts_implies_static_ok.
+Print Assumptions C05_rounding_overflows_iff.
+Print Assumptions C05_C04_float_leaves_agree.
+Print Assumptions C05_C04_coercion_bridge_r.
+Print Assumptions C05_C04_coercion_bridge.
+Print Assumptions C05_C04_accepts_implies_static_ok_r.
 Print Assumptions C05_C04_longint_leaf.
 Print Assumptions C05_C04_datetime_leaf.
 Print Assumptions C05_C04_accepts_implies_static_ok_bridgeable.
